@@ -107,6 +107,7 @@ def _ns(draw):
         "backend": draw(st.sampled_from(["slurm", "slurm", "sge", "lsf"])),
         "accounting": draw(st.sampled_from([None, True, False])),
         "log_mode": draw(st.sampled_from([None, "full", "merged", "none"])),
+        "config_via": draw(st.sampled_from(["file", "cli"])),
         "foreign": draw(st.lists(st.sampled_from(["backend.slurmx.y", "backend.sge.zz", "backend.local.port",
                                                   "backend.lsfx", "backend.slurm_extra.k", "local.port",
                                                   "backend.slu.log_mode"]), max_size=3, unique=True)),
@@ -337,7 +338,7 @@ def run_ns(case):
         if not k.startswith(f"backend.{b}."):  # unknown keys of the selected namespace are out of scope
             cfg[k] = "zz"
     with project.Project(DESC, backend=b) as proj:
-        proj.write_config(cfg)
+        proj.write_config(cfg, via_cli=case.get("config_via") == "cli")
         r = proj.gwf(["run"])
         if r.code != 0 or r.crashed:
             viols.append(Violation({"kind": "foreign-namespace-reached-backend" if case["foreign"] else "run-failed",
